@@ -371,6 +371,32 @@ func NewListenerManager() ListenerManager {
 	}
 }
 
+// managedStreamListener closes its listener while holding the manager's lock,
+// so that locks are always taken in the same order (the manager's lock, then
+// the shared listener's) whether a handle is being acquired or closed.
+type managedStreamListener struct {
+	StreamListener
+	manager *listenerManager
+}
+
+func (ln *managedStreamListener) Close() error {
+	ln.manager.mu.Lock()
+	defer ln.manager.mu.Unlock()
+	return ln.StreamListener.Close()
+}
+
+// managedPacketConn is the packet equivalent of managedStreamListener.
+type managedPacketConn struct {
+	net.PacketConn
+	manager *listenerManager
+}
+
+func (pc *managedPacketConn) Close() error {
+	pc.manager.mu.Lock()
+	defer pc.manager.mu.Unlock()
+	return pc.PacketConn.Close()
+}
+
 func (m *listenerManager) ListenStream(addr string) (StreamListener, error) {
 	m.mu.Lock()
 	defer m.mu.Unlock()
@@ -380,9 +406,8 @@ func (m *listenerManager) ListenStream(addr string) (StreamListener, error) {
 		streamLn = NewMultiStreamListener(
 			addr,
 			func() error {
-				m.mu.Lock()
+				// Called with m.mu held, see managedStreamListener.Close.
 				delete(m.streamListeners, addr)
-				m.mu.Unlock()
 				return nil
 			},
 		)
@@ -392,7 +417,7 @@ func (m *listenerManager) ListenStream(addr string) (StreamListener, error) {
 	if err != nil {
 		return nil, fmt.Errorf("unable to create stream listener for %s: %v", addr, err)
 	}
-	return ln, nil
+	return &managedStreamListener{StreamListener: ln, manager: m}, nil
 }
 
 func (m *listenerManager) ListenPacket(addr string) (net.PacketConn, error) {
@@ -404,9 +429,8 @@ func (m *listenerManager) ListenPacket(addr string) (net.PacketConn, error) {
 		packetLn = NewMultiPacketListener(
 			addr,
 			func() error {
-				m.mu.Lock()
+				// Called with m.mu held, see managedPacketConn.Close.
 				delete(m.packetListeners, addr)
-				m.mu.Unlock()
 				return nil
 			},
 		)
@@ -417,5 +441,5 @@ func (m *listenerManager) ListenPacket(addr string) (net.PacketConn, error) {
 	if err != nil {
 		return nil, fmt.Errorf("unable to create packet listener for %s: %v", addr, err)
 	}
-	return ln, nil
+	return &managedPacketConn{PacketConn: ln, manager: m}, nil
 }
